@@ -31,7 +31,9 @@ def main():
         os.rmdir(wt)
         subprocess.check_call(['git', '-C', '/repo', 'worktree', 'add', '-q', wt, 'HEAD'])
         try:
-            subprocess.check_call(['git', '-C', wt, 'apply', os.path.join(d, 'patch.diff')])
+            if subprocess.call(['git', '-C', wt, 'apply', os.path.join(d, 'patch.diff')]) != 0:
+                print(name, pid, 'PATCH-DOES-NOT-APPLY', flush=True)
+                continue
             env = dict(os.environ, VERIF_REPO=wt)
             p = subprocess.run([os.path.join(ROOT, 'check'), pid, '--tier', 'quick'], cwd=ROOT, env=env, capture_output=True, text=True, timeout=3600)
             lines = [l for l in p.stdout.split('\n') if l.startswith('VIOLATION') or l.startswith('OK ') or l.startswith('KNOWN-FINDING')]
